@@ -335,21 +335,27 @@ class H2Protocol:
 
     async def _priority_updated(self, event: h2.events.PriorityUpdated) -> None:
         try:
-            self.priority.reprioritize(
-                stream_id=event.stream_id,
-                depends_on=event.depends_on or None,
-                weight=event.weight,
-                exclusive=event.exclusive,
-            )
-        except priority.MissingStreamError:
-            # Received PRIORITY frame before HEADERS frame
-            self.priority.insert_stream(
-                stream_id=event.stream_id,
-                depends_on=event.depends_on or None,
-                weight=event.weight,
-                exclusive=event.exclusive,
-            )
-            self.priority.block(event.stream_id)
+            try:
+                self.priority.reprioritize(
+                    stream_id=event.stream_id,
+                    depends_on=event.depends_on or None,
+                    weight=event.weight,
+                    exclusive=event.exclusive,
+                )
+            except priority.MissingStreamError:
+                # Received PRIORITY frame before HEADERS frame
+                self.priority.insert_stream(
+                    stream_id=event.stream_id,
+                    depends_on=event.depends_on or None,
+                    weight=event.weight,
+                    exclusive=event.exclusive,
+                )
+                self.priority.block(event.stream_id)
+        except priority.PriorityError:
+            # The tree refuses the change (it is full, or the
+            # dependency chain is too deep). Priorities are advisory,
+            # the frame is ignored.
+            pass
         await self.has_data.set()
 
     async def _create_stream(
@@ -374,6 +380,26 @@ class H2Protocol:
             # which is not supported. Only this stream is answered.
             await self._send_error_response(request.stream_id, 400)
             return
+
+        try:
+            self.priority.insert_stream(request.stream_id)
+        except priority.DuplicateStreamError:
+            # Recieved PRIORITY frame before HEADERS frame
+            pass
+        except priority.TooManyStreamsError:
+            # The client has filled the priority tree (with PRIORITY
+            # frames for streams it has not opened), a response
+            # could not be scheduled. Only this stream is refused.
+            try:
+                self.connection.reset_stream(
+                    request.stream_id, error_code=h2.errors.ErrorCodes.REFUSED_STREAM
+                )
+            except h2.exceptions.ProtocolError:
+                return  # The stream or connection has already closed
+            await self._flush()
+            return
+        else:
+            self.priority.block(request.stream_id)
 
         if method == "CONNECT":
             self.streams[request.stream_id] = WSStream(
@@ -400,13 +426,6 @@ class H2Protocol:
                 request.stream_id,
             )
         self.stream_buffers[request.stream_id] = StreamBuffer(self.context.event_class)
-        try:
-            self.priority.insert_stream(request.stream_id)
-        except priority.DuplicateStreamError:
-            # Recieved PRIORITY frame before HEADERS frame
-            pass
-        else:
-            self.priority.block(request.stream_id)
 
         await self.streams[request.stream_id].handle(
             Request(
